@@ -71,22 +71,7 @@ func c01(r *core.Report) {
 	if len(r.Failures) > 0 {
 		return
 	}
-	bw := core.NewBorrow(p)
-	bw.SyncHandOff[h.fns["TellHub.Deliver"]] = true
-	bw.SyncHandOff[h.fns["AskHub.Deliver"]] = true
-	bw.NoRetain = map[string]string{
-		"(*net.UDPConn).WriteToUDP":                            "copies the datagram into the kernel during the call",
-		"(*net.Buffers).WriteTo":                               "consumes the vector (which Tell may modify), writes the buffers' bytes to w, keeps no reference",
-		"(net.Buffers).WriteTo":                                "same",
-		"(golang.org/x/crypto/ssh.Conn).SendRequest":           "marshals the payload into the outgoing packet before returning",
-		"(*github.com/flynn/noise.HandshakeState).ReadMessage": "decrypts into its out argument; e and s are copied out of message (state.go: copy(s.re, message), DecryptAndHash(s.rs[:0], ...))",
-		"google.golang.org/protobuf/proto.Unmarshal":           "copies bytes fields into the message (no aliasing by default)",
-		"(*bytes.Buffer).Write":                                "copies p into the buffer",
-		"(*strings.Builder).Write":                             "copies",
-		"(io.WriteCloser).Write":                               "io.Writer contract",
-		"fmt.Fprintf":                                          "formats", "fmt.Sprintf": "formats", "fmt.Errorf": "formats (error text only)",
-		"github.com/pkg/errors.Errorf": "formats", "log.Println": "formats",
-	}
+	bw := newBorrowEngine(p, h)
 
 	// ---- the loan through the hubs is synchronous (what BORROW-* assume when they treat
 	// TellHub/AskHub.Deliver as a loan): same rules as C13, decided here as well
@@ -108,27 +93,6 @@ func c01(r *core.Report) {
 			sendRoots = append(sendRoots, f)
 		}
 	}
-	report := func(rule, c string, fn *ssa.Function, evs []core.BorrowEvent) {
-		seen := map[string]bool{}
-		bad := 0
-		for _, e := range evs {
-			k := fmt.Sprintf("%s|%s|%s", e.Kind, core.FnName(e.Fn), p.Pos(e.In.Pos()))
-			if seen[k] {
-				continue
-			}
-			seen[k] = true
-			bad++
-			switch e.Kind {
-			case "unknown-call":
-				r.Undecided(rule, c+" -> "+core.FnName(e.Fn), p.Pos(e.In.Pos()), e.What+" (add it to the audited no-retain table with its reason, or it retains the buffer)")
-			default:
-				r.Violation(rule, c+" -> "+core.FnName(e.Fn)+" "+e.Kind, p.Pos(e.In.Pos()), e.What+": the sender may reuse the buffer as soon as the call returns, so what is delivered later (or what the sender still holds) changes")
-			}
-		}
-		if bad == 0 {
-			r.OK(rule, c, p.Pos(fn.Pos()), "every alias of the borrowed bytes is read, copied or lent synchronously; none is written or kept")
-		}
-	}
 	for _, fn := range sendRoots {
 		r.Analysed(fn)
 		idx := -1
@@ -145,67 +109,12 @@ func c01(r *core.Report) {
 		if idx < 0 {
 			continue
 		}
-		report("C01-BORROW-SEND", core.FnName(fn), fn, bw.AnalyseParam(fn, idx))
+		borrowReport(r, "C01-BORROW-SEND", core.FnName(fn), fn, bw.AnalyseParam(fn, idx))
 	}
 
 	// ---- C01-BORROW-RECV
 	r.Rule("C01-BORROW-RECV", "no alias of a received message's payload is written or outlives the callback", 9)
-	type work struct {
-		fn  *ssa.Function
-		msg ssa.Value
-	}
-	var queue []work
-	seenW := map[*ssa.Function]bool{}
-	for _, fn := range p.ModFuncs {
-		if strings.Contains(fn.String(), "swarmtest") || strings.Contains(fn.String(), "p2ptest") {
-			continue
-		}
-		for _, prm := range fn.Params {
-			// by value: the callee sees a message it was lent. By pointer: only copyMessage's source
-			// (the other *Message parameters are out-parameters that the callee fills with its own buffers)
-			_, isPtr := prm.Type().Underlying().(*types.Pointer)
-			byPtrIn := isPtr && isMessageType(p, prm.Type()) && fn.Name() == "copyMessage" && prm.Name() == "src"
-			if ((isMessageType(p, prm.Type()) && !isPtr) || byPtrIn) && !seenW[fn] {
-				// the hubs themselves lend the message on
-				if fn == h.fns["TellHub.Deliver"] || fn == h.fns["AskHub.Deliver"] || fn.Name() == "NoOpAskHandler" {
-					continue
-				}
-				seenW[fn] = true
-				queue = append(queue, work{fn, prm})
-			}
-		}
-	}
-	for _, w := range queue {
-		r.Analysed(w.fn)
-		seeds := payloadReads(w.fn, w.msg)
-		if len(seeds) == 0 {
-			r.Trivial("C01-BORROW-RECV", core.FnName(w.fn), p.Pos(w.fn.Pos()), "the payload is not read here (the message is passed on whole)")
-			continue
-		}
-		report("C01-BORROW-RECV", core.FnName(w.fn), w.fn, bw.AnalyseSeeds(w.fn, seeds))
-	}
-
-	// byte-slice parameters that carry a received payload whose buffer the caller reuses
-	for _, extra := range []struct{ pkg, fn, param string }{
-		{"p/mbapp", "Swarm.handleMessage", "data"}, // recvLoop reuses m.Payload on the next p2p.Receive
-	} {
-		fn := needFn(r, extra.pkg, extra.fn)
-		if fn == nil {
-			continue
-		}
-		idx := -1
-		for i, prm := range fn.Params {
-			if prm.Name() == extra.param {
-				idx = i
-			}
-		}
-		if idx < 0 {
-			r.Fail("C01-BORROW-RECV: %s: parameter %s not found", core.FnName(fn), extra.param)
-			continue
-		}
-		r.Analysed(fn)
-		report("C01-BORROW-RECV", core.FnName(fn)+" "+extra.param, fn, bw.AnalyseParam(fn, idx))
-	}
+	ruleBorrowRecv(r, h, bw, "C01-BORROW-RECV")
 
 	// ---- C01-ADDR-PROVENANCE
 	r.Rule("C01-ADDR-PROVENANCE", "re-wrapped messages keep source as source and destination as destination", 10)
@@ -434,4 +343,112 @@ func derefType(t types.Type) types.Type {
 		return pt.Elem()
 	}
 	return t
+}
+
+// newBorrowEngine: the borrow/escape engine with the module's audited tables (shared by C01, C11, C14).
+func newBorrowEngine(p *core.Prog, h *hubSlots) *core.Borrow {
+	bw := core.NewBorrow(p)
+	bw.SyncHandOff[h.fns["TellHub.Deliver"]] = true
+	bw.SyncHandOff[h.fns["AskHub.Deliver"]] = true
+	bw.NoRetain = map[string]string{
+		"(*net.UDPConn).WriteToUDP":                            "copies the datagram into the kernel during the call",
+		"(*net.Buffers).WriteTo":                               "consumes the vector (which Tell may modify), writes the buffers' bytes to w, keeps no reference",
+		"(net.Buffers).WriteTo":                                "same",
+		"(golang.org/x/crypto/ssh.Conn).SendRequest":           "marshals the payload into the outgoing packet before returning",
+		"(*github.com/flynn/noise.HandshakeState).ReadMessage": "decrypts into its out argument; e and s are copied out of message (state.go: copy(s.re, message), DecryptAndHash(s.rs[:0], ...))",
+		"google.golang.org/protobuf/proto.Unmarshal":           "copies bytes fields into the message (no aliasing by default)",
+		"(*bytes.Buffer).Write":                                "copies p into the buffer",
+		"(*strings.Builder).Write":                             "copies",
+		"(io.WriteCloser).Write":                               "io.Writer contract",
+		"fmt.Fprintf":                                          "formats", "fmt.Sprintf": "formats", "fmt.Errorf": "formats (error text only)",
+		"github.com/pkg/errors.Errorf": "formats", "log.Println": "formats",
+	}
+	return bw
+}
+
+// borrowReport turns the engine's events for one root into obligations.
+func borrowReport(r *core.Report, rule, c string, fn *ssa.Function, evs []core.BorrowEvent) {
+	p := r.P
+	seen := map[string]bool{}
+	bad := 0
+	for _, e := range evs {
+		k := fmt.Sprintf("%s|%s|%s", e.Kind, core.FnName(e.Fn), p.Pos(e.In.Pos()))
+		if seen[k] {
+			continue
+		}
+		seen[k] = true
+		bad++
+		switch e.Kind {
+		case "unknown-call":
+			r.Undecided(rule, c+" -> "+core.FnName(e.Fn), p.Pos(e.In.Pos()), e.What+" (add it to the audited no-retain table with its reason, or it retains the buffer)")
+		default:
+			r.Violation(rule, c+" -> "+core.FnName(e.Fn)+" "+e.Kind, p.Pos(e.In.Pos()), e.What+": the owner may reuse the buffer as soon as the call returns, so what is delivered later (or what the owner still holds) changes")
+		}
+	}
+	if bad == 0 {
+		r.OK(rule, c, p.Pos(fn.Pos()), "every alias of the borrowed bytes is read, copied or lent synchronously; none is written or kept")
+	}
+}
+
+// ruleBorrowRecv: in every function handed a received message by value (receive callbacks, handlers,
+// the queue) and in mbapp's handleMessage, no alias of the payload is written or outlives the call.
+// Shared by C01 (delivered bytes stay what was sent), C11 (an ask reply kept by reference is
+// overwritten by the next reply) and C14 (callback buffer ownership).
+func ruleBorrowRecv(r *core.Report, h *hubSlots, bw *core.Borrow, ruleID string) {
+	p := r.P
+	type work struct {
+		fn  *ssa.Function
+		msg ssa.Value
+	}
+	var queue []work
+	seenW := map[*ssa.Function]bool{}
+	for _, fn := range p.ModFuncs {
+		if strings.Contains(fn.String(), "swarmtest") || strings.Contains(fn.String(), "p2ptest") {
+			continue
+		}
+		for _, prm := range fn.Params {
+			// by value: the callee sees a message it was lent. By pointer: only copyMessage's source
+			// (the other *Message parameters are out-parameters that the callee fills with its own buffers)
+			_, isPtr := prm.Type().Underlying().(*types.Pointer)
+			byPtrIn := isPtr && isMessageType(p, prm.Type()) && fn.Name() == "copyMessage" && prm.Name() == "src"
+			if ((isMessageType(p, prm.Type()) && !isPtr) || byPtrIn) && !seenW[fn] {
+				// the hubs themselves lend the message on
+				if fn == h.fns["TellHub.Deliver"] || fn == h.fns["AskHub.Deliver"] || fn.Name() == "NoOpAskHandler" {
+					continue
+				}
+				seenW[fn] = true
+				queue = append(queue, work{fn, prm})
+			}
+		}
+	}
+	for _, w := range queue {
+		r.Analysed(w.fn)
+		seeds := payloadReads(w.fn, w.msg)
+		if len(seeds) == 0 {
+			r.Trivial(ruleID, core.FnName(w.fn), p.Pos(w.fn.Pos()), "the payload is not read here (the message is passed on whole)")
+			continue
+		}
+		borrowReport(r, ruleID, core.FnName(w.fn), w.fn, bw.AnalyseSeeds(w.fn, seeds))
+	}
+	// byte-slice parameters that carry a received payload whose buffer the caller reuses
+	for _, extra := range []struct{ pkg, fn, param string }{
+		{"p/mbapp", "Swarm.handleMessage", "data"}, // recvLoop reuses m.Payload on the next p2p.Receive
+	} {
+		fn := needFn(r, extra.pkg, extra.fn)
+		if fn == nil {
+			continue
+		}
+		idx := -1
+		for i, prm := range fn.Params {
+			if prm.Name() == extra.param {
+				idx = i
+			}
+		}
+		if idx < 0 {
+			r.Fail("%s: %s: parameter %s not found", ruleID, core.FnName(fn), extra.param)
+			continue
+		}
+		r.Analysed(fn)
+		borrowReport(r, ruleID, core.FnName(fn)+" "+extra.param, fn, bw.AnalyseParam(fn, idx))
+	}
 }
